@@ -2,6 +2,7 @@ import Pi2.MM.TranslateThm
 import Pi2.Props.C15
 import Pi2.XProofTie
 import Pi2.MM.ConvCompose
+import Pi2.MM.ConvCoherence
 /-!
 # C16 — valid Metamath proofs translate to checkable proofs of the same statement
 
@@ -37,6 +38,16 @@ configuration (`--optimize` or not).  Compressed-proof decoding is C15.
   `ConvTie.convOf`, labels by their names in the label table) + the generated `exec_proof` on a database of the fragment
   (`ConvTie.InFragmentX`) = the model's `execProof` on `dbOfMDb`, the model the theorems at the top of this file are about
   (`Pi2/MM/ConvCompose.lean`, through `XProofCongr.exec_proof_congr` and `XProofTie.exec_proof_tie`).
+* `converter_text_is_the_model_of_shape`, `translation_text_is_the_model_of_shape`: the two theorems above WITHOUT a hypothesis
+  about the output of `dbOfMDb` or the converter's run: for every database that satisfies `MM.ConvSpec.FragmentShape`
+  (`Pi2/MM/ConvShape.lean`) — a decidable predicate on the STATEMENTS alone, written from their Metamath meaning: `$c`/`$v`;
+  `v-is-pattern $f #Pattern v` after the `$v` of `v`; pattern-constructor axioms over pairwise different variables, `\imp` / `\app`
+  exactly under the labels `imp-is-pattern` / `app-is-pattern`; `|-` axioms and `${ $e … $a $}` rules over declared constants and
+  variables with a `$f`; the three proof rules under their names; pairwise different labels; one top-level `$p`, the target, with a
+  compressed proof that cites `$f` / `$a` labels.  `ConvCoh.coherence` (`Pi2/MM/ConvCoherence.lean`) proves that `dbOfMDb` accepts
+  every such database and that its output is coherent with every statement; `ConvCoh.inFragmentM_of_shape` derives the run
+  conditions.  `fragment_shape_example`: the predicate holds of a concrete database (kernel evaluation), so the theorems are not
+  vacuous; the driver evaluates it on every generated database.
 * NOT covered by a theorem: the byte limits of the wire format (a proof that needs more than 256
   memory slots cannot be serialised: recorded finding KF-C16-slots) and declared notation sugar
   (`#Notation` axioms), which are outside F0.
@@ -150,5 +161,60 @@ theorem translation_text_is_the_model (mdb : MDb) (target : String) (h : ConvTie
           XProofTie.outcome (Gen.XProof.exec_proof (ConvTie.convOf sp.names.consts.idxOf fuel c sp target) cfg n sp.labels sp.steps s acc) =
             execProof cfg n sp.db sp.goal sp.labels sp.steps s acc :=
   ConvTie.translation_tie mdb target h
+
+/-- **coherence of the specification**: on every database of the shape (a predicate on the statements alone) `dbOfMDb` succeeds,
+its output agrees with every statement (the conjuncts about `dbOfMDb` of `ConvTie.InFragment` / `ConvTie.InFragmentX`) and its
+database is well formed -/
+theorem spec_coherent_of_shape (mdb : MDb) (target : String) (h : MM.ConvSpec.FragmentShape mdb target = true) :
+    ∃ sp, MM.ConvSpec.dbOfMDb mdb target = some sp ∧ ConvCoh.Coherent mdb target sp ∧ sp.db.wf = true :=
+  ConvCoh.coherence mdb target h
+
+/-- the run conditions and the coherence conditions follow from the shape -/
+theorem in_fragment_of_shape (mdb : MDb) (target : String) (h : MM.ConvSpec.FragmentShape mdb target = true) :
+    ConvTie.InFragmentM mdb (ConvTie.dbFuel mdb) target = true ∧ ConvTie.InFragment mdb target = true ∧
+      ConvTie.InFragmentX mdb target = true :=
+  ⟨ConvCoh.inFragmentM_of_shape mdb target h, ConvCoh.inFragmentConv_of_shape mdb target h, ConvCoh.inFragmentX_of_shape mdb target h⟩
+
+/-- `converter_text_is_the_model` for every database of the shape `MM.ConvSpec.FragmentShape` — no hypothesis about the run of the
+converter or the output of `dbOfMDb` -/
+theorem converter_text_is_the_model_of_shape (mdb : MDb) (target : String) (h : MM.ConvSpec.FragmentShape mdb target = true) :
+    ∃ sp, MM.ConvSpec.dbOfMDb mdb target = some sp ∧ sp.db.wf = true ∧
+      ∀ fuel, ConvTie.dbFuel mdb ≤ fuel → ∃ c, Gen.MMConv.MetamathConverter_init sp.names.consts.idxOf fuel default mdb = .ok c ∧
+        (∀ l v, (l, v) ∈ ConvTie.floatPairs mdb →
+          sp.table.lookup l = some (Lbl.float (sp.names.vars.idxOf v)) ∧
+          c._fp_label_to_pattern.lookup l = (XProofTie.ofDB sp.db sp.goal).floating (Lbl.float (sp.names.vars.idxOf v)) ∧
+          Gen.MMConv.resolve_metavar sp.names.consts.idxOf fuel c v =
+            .ok ((XProofTie.ofDB sp.db sp.goal).resolveMetavar (sp.names.vars.idxOf v)) ∧
+          Gen.MMConv.is_pattern_constructor sp.names.consts.idxOf fuel c l =
+            (XProofTie.ofDB sp.db sp.goal).isPatternConstructor (Lbl.float (sp.names.vars.idxOf v))) ∧
+        (∀ st ∈ mdb.filter ConvTie.isAxItem, ∃ l lbl, ConvTie.axLabel st = l ∧ sp.table.lookup l = some lbl ∧
+          ConvTie.AgreeAxiom sp.names.consts.idxOf fuel c sp.names sp.db sp.goal l lbl) ∧
+        (Gen.MMConv.exported_axioms sp.names.consts.idxOf fuel c =
+          ((mdb.filter ConvTie.isAxItem).filter fun st => !ConvTie.isPcItem st && !ConvTie.isPrItem st).map ConvTie.axLabel) ∧
+        (∃ a pf, Gen.MMConv.get_lemma_by_name sp.names.consts.idxOf fuel c target = .ok a ∧
+          a.pattern = (XProofTie.ofDB sp.db sp.goal).targetPattern ∧ a.proof? = some pf ∧ ConvTie.proofAgrees sp pf = true ∧
+          Gen.MMConv.lemmas sp.names.consts.idxOf fuel c = [target]) :=
+  converter_text_is_the_model mdb target (ConvCoh.inFragmentConv_of_shape mdb target h)
+
+/-- `translation_text_is_the_model` for every database of the shape `MM.ConvSpec.FragmentShape` -/
+theorem translation_text_is_the_model_of_shape (mdb : MDb) (target : String) (h : MM.ConvSpec.FragmentShape mdb target = true) :
+    ∃ sp, MM.ConvSpec.dbOfMDb mdb target = some sp ∧
+      ∀ fuel, ConvTie.dbFuel mdb ≤ fuel → ∃ c, Gen.MMConv.MetamathConverter_init sp.names.consts.idxOf fuel default mdb = .ok c ∧
+        (∃ a pf, Gen.MMConv.get_lemma_by_name sp.names.consts.idxOf fuel c target = .ok a ∧ a.proof? = some pf ∧
+          ConvTie.proofAgrees sp pf = true) ∧
+        ∀ (cfg : Cfg) (n : Nat) (s : PySt) (acc : List Call), 5 ≤ n →
+          XProofTie.outcome (Gen.XProof.exec_proof (ConvTie.convOf sp.names.consts.idxOf fuel c sp target) cfg n sp.labels sp.steps s acc) =
+            execProof cfg n sp.db sp.goal sp.labels sp.steps s acc :=
+  translation_text_is_the_model mdb target (ConvCoh.inFragmentX_of_shape mdb target h)
+
+/-- non-vacuity: a concrete database of the shape — constants, a binary constructor, `\imp` / `\app`, three `$f` statements in
+shuffled order, an axiom, a rule with two hypotheses, the three proof rules, a goal with a compressed proof
+(`MM.ConvSpec.Example.db`); evaluated by the kernel -/
+theorem fragment_shape_example : MM.ConvSpec.FragmentShape MM.ConvSpec.Example.db "goal" = true := by decide +kernel
+
+/-- … to which the theorems therefore apply -/
+example : ∃ sp, MM.ConvSpec.dbOfMDb MM.ConvSpec.Example.db "goal" = some sp ∧ sp.db.wf = true :=
+  let ⟨sp, h1, h2, _⟩ := converter_text_is_the_model_of_shape _ _ fragment_shape_example
+  ⟨sp, h1, h2⟩
 
 end C16
